@@ -5,6 +5,10 @@ import (
 	"encoding/hex"
 	"errors"
 	"fmt"
+	signerhandler "github.com/attestantio/dirk/services/api/grpc/handlers/signer"
+	"github.com/attestantio/dirk/services/api/grpc/interceptors"
+	"github.com/attestantio/dirk/services/signer"
+	pb "github.com/wealdtech/eth2-signer-api/pb/v1"
 	"sort"
 	"strings"
 
@@ -206,6 +210,10 @@ type SigWorker struct {
 	runs    int
 	Recycle int
 	Creds   *checker.Credentials
+	// ViaHandler sends attestation batches through the gRPC signer handler instead of calling the signer service.
+	ViaHandler bool
+	handler    *signerhandler.Handler
+	handlerOf  signer.Service
 	// VerifyLast enables verification of the signatures released by the last operation.
 	VerifyLast bool
 	// RealBLS uses real BLS keys (slow: ~1.5 ms per signature here); otherwise symbolic keys are used and
@@ -389,7 +397,33 @@ func (w *SigWorker) Continue(tr *Trace, path []SOp, verifyLast bool) error {
 				}
 				data[i] = AttData(e)
 			}
-			ress, sigs := w.Rig.Signer.SignBeaconAttestations(ctx, w.Creds, names, pks, data)
+			var ress []core.Result
+			var sigs [][]byte
+			if w.ViaHandler {
+				// Through the gRPC handler, as a client's batch arrives.
+				if w.handler == nil || w.handlerOf != w.Rig.Signer {
+					h, err := signerhandler.New(w.Rig.Ctx, signerhandler.WithSigner(w.Rig.Signer))
+					if err != nil {
+						return err
+					}
+					w.handler, w.handlerOf = h, w.Rig.Signer
+				}
+				req := &pb.SignBeaconAttestationsRequest{}
+				for i, d := range data {
+					req.Requests = append(req.Requests, mkAttReq(names[i], pks[i], d.Domain, &pb.AttestationData{Slot: d.Slot, CommitteeIndex: d.CommitteeIndex, BeaconBlockRoot: d.BeaconBlockRoot,
+						Source: &pb.Checkpoint{Epoch: d.Source.Epoch, Root: d.Source.Root}, Target: &pb.Checkpoint{Epoch: d.Target.Epoch, Root: d.Target.Root}}))
+				}
+				res, err := w.handler.SignBeaconAttestations(context.WithValue(ctx, &interceptors.ClientName{}, w.Creds.Client), req)
+				if err != nil {
+					return err
+				}
+				for _, x := range res.GetResponses() {
+					ress = append(ress, stateToResult(x.GetState()))
+					sigs = append(sigs, x.GetSignature())
+				}
+			} else {
+				ress, sigs = w.Rig.Signer.SignBeaconAttestations(ctx, w.Creds, names, pks, data)
+			}
 			var sb strings.Builder
 			for i := range op.Ents {
 				var res core.Result = core.ResultUnknown
